@@ -187,22 +187,27 @@ type World struct {
 	T  *testing.T
 	t0 time.Time
 
-	mu            sync.Mutex
-	done          chan struct{}
-	Dir           string
-	StatePath     string
-	Router        *server.Router
-	Srv           *server.Server
-	HS            *http.Server
-	ln, tlsLn     *memListener
-	probeTr       *http.Transport
-	conns         []net.Conn
-	Targets       map[string]*FakeTarget
-	Hooks         []HookRec
-	Resps         []*Resp
-	Cmds          []*CmdRec
-	ReqDelay      map[string]map[string]time.Duration
-	PointDelay    map[string]func(name string, n int) time.Duration
+	mu         sync.Mutex
+	done       chan struct{}
+	Dir        string
+	StatePath  string
+	Router     *server.Router
+	Srv        *server.Server
+	HS         *http.Server
+	ln, tlsLn  *memListener
+	probeTr    *http.Transport
+	conns      []net.Conn
+	Targets    map[string]*FakeTarget
+	Hooks      []HookRec
+	Resps      []*Resp
+	Cmds       []*CmdRec
+	ReqDelay   map[string]map[string]time.Duration
+	PointDelay map[string]func(name string, n int) time.Duration
+	// PointSpin: real-time busy delays (number of scheduler yields) for hook points that sit inside a
+	// lock of the code under test. A virtual sleep there would hang the bubble: a goroutine blocked
+	// on a sync.Mutex is not "durably blocked", so the fake clock would never advance while another
+	// goroutine waits for that lock.
+	PointSpin     map[string]func(n int) int
 	pointCount    map[string]int
 	OnHook        func(h HookRec)
 	LogBuf        *lockedBuffer
@@ -350,8 +355,14 @@ func (w *World) hook(point string, args ...any) {
 		d = w.ReqDelay[h.Req][point]
 	}
 	f := w.PointDelay[point]
+	spin := w.PointSpin[point]
 	on := w.OnHook
 	w.mu.Unlock()
+	if spin != nil {
+		for i := spin(n); i > 0; i-- {
+			runtime.Gosched()
+		}
+	}
 	if f != nil && h.Req == "" {
 		d += f(h.Name, n)
 	}
@@ -383,6 +394,7 @@ func (w *World) ClearDelays() {
 	w.mu.Lock()
 	w.ReqDelay = map[string]map[string]time.Duration{}
 	w.PointDelay = map[string]func(string, int) time.Duration{}
+	w.PointSpin = nil
 	w.mu.Unlock()
 }
 
